@@ -66,6 +66,7 @@ impl<A: AcceptableMasterList, C: Clock, F: Filter, R: Rng, S: PtpInstanceStateMu
                         path_trace_ds.list = tlv
                             .value
                             .chunks_exact(8)
+                            .take(path_trace_ds.list.capacity())
                             .map(|ci| ClockIdentity(<[u8; 8]>::try_from(ci).unwrap()))
                             .collect();
                     }
